@@ -7,6 +7,11 @@ HOOK_COMMITS = ["e39f3f7"]
 
 # id -> (category, technique, text, note, design_ref)
 CHECKS = {
+ "C01": ("fault_enumeration",
+         "runtime monitoring: adversarial shadow prover against the real merchant, verifier challenge read through the challenge-recorder hook, oracle = merchant signature verifying on a false message (pairing reference + Signature::verify)",
+         "For several merchant configurations and agreed (channel id, balances, context) tuples, an independent prover written on bls12_381 arithmetic builds establish proofs for ~35 false (state, close state) witnesses (each slot, each message, cross-slot, out-of-range) under four strategy families: honest-but-lying, answer-as-if-agreed (exactly the Schnorr relation false), and post-challenge choice of each non-response field (T of either proof, each revealed commitment scalar, C) iterated up to three rounds with the verifier's challenge read through the hook. Every proof goes to the real initialize(); an alarm requires the returned closing signature or pay token, unblinded with the forger's factor, to verify on a message that differs from the agreed one. Positive control (true witness through the same machinery) must be accepted.",
+         "Soundness is decided against this explicit forger family only, not against all provers. Trusts bls12_381, the pairing reference (cross-checked against Signature::verify on every accepted case) and the hook (observes, never alters, the challenge).",
+         "DESIGN.md §4 C01"),
  "C15": ("fault_enumeration",
          "runtime monitoring: wire tracer enumerates every atom of every serializable type; decode-time invariant table checked by substitution; behavioural twin checks of decoded keys/parameters",
          "Every serializable type of both crates (all tuple lengths of the tier, the five customer stages from a real session) is round-tripped; every atom of every honest encoding is replaced in turn by each encoding its position forbids (off-curve, out-of-subgroup, flag patterns, scalar >= q everywhere; identity / zero / close tag / unmatched lock, secret, index / balance >= 2^63 by position) and the decoder must refuse, while valid alternatives must still round trip. Decoded keys, parameters and merchant parts are used against the originals. Exhaustive over atoms x table for one instance per type; the layout is observed from the Serialize impls, not hard-coded.",
